@@ -265,6 +265,8 @@ pub fn run_conc(prop: &'static str, plan_v: &Value) -> RunOutcome {
     };
     let trace = std::env::var_os("VERIF_TRACE").is_some();
     let mut h = Harness::new(prop, plan.cfg.clone());
+    // the store's own syncer thread runs its real loop under the scheduler's timer
+    h.gate.set_real_syncer(true);
     h.gate.set_flush_hold(plan.hold_flush);
     h.gate.set_mode(Mode::Gated);
     if let Err(e) = h.open() {
@@ -534,6 +536,9 @@ pub fn run_conc(prop: &'static str, plan_v: &Value) -> RunOutcome {
         }
     }
     // ---- wind down: let everything finish ungated ------------------------------------------------
+    // (the real syncer thread leaves; from here on the harness sends FlushPoll itself)
+    h.gate.stop_syncer();
+    h.gate.set_real_syncer(false);
     h.gate.set_mode(Mode::Free);
     h.gate.set_flush_hold(false);
     for c in &mut clients {
